@@ -31,7 +31,6 @@ TRUSTED = [
     "NumPy is the reference for leg C; dtype promotion and float rounding are outside the theorems",
     "the watchdog (subprocess + deadline) decides 'does not return'",
 ]
-FMT_SPARSE = ["coo", "gcxs"]
 RTS = ["none", "coo", "gcxs", "nd"]
 HANG_DEADLINE = 15.0
 
@@ -770,20 +769,28 @@ def job_of(case, active):
 
 
 def replay_witnesses(ctx, pool):
-    """decide, under the watchdog, which known defects are present in the tree being checked"""
-    ids = list(WITNESSES)
-    jobs = []
+    """decide, under the watchdog, which known defects are present in the tree being checked.
+    The deadline for "does not return" is calibrated first: a fresh process runs a returning call through
+    the same kernel as the non-returning witness (import + compilation + call), and the deadline is a
+    multiple of that time, so that a loaded machine does not turn a slow call into a hang."""
+    global HANG_DEADLINE
+    ids = [f for f in WITNESSES if f != "F-coo-nd-zero-cols-hang"]
+    calib = {"kind": "product", "op": "dot", "a": spec_of(np.eye(3, dtype=np.int64), "coo"), "b": spec_of(np.ones((3, 2), dtype=np.int64), "nd"),
+             "_fresh": True, "_deadline": 120.0}
+    jobs = [calib]
     for fid in ids:
-        j = dict(WITNESSES[fid])
-        j["kind"] = "product"
-        j["_fresh"], j["_deadline"] = True, HANG_DEADLINE
-        jobs.append(j)
+        jobs.append(dict(WITNESSES[fid], kind="product", _fresh=True, _deadline=120.0))
     res = pool.run(jobs)
+    t_cal = res[0].get("_wall", 120.0)
+    HANG_DEADLINE = max(15.0, 5.0 * t_cal + 5.0)
+    pool.deadline = max(60.0, 20.0 * t_cal)
+    ctx.notes["watchdog_calibration"] = {"returning_call_s": t_cal, "hang_deadline_s": round(HANG_DEADLINE, 1)}
+    hang = pool.run([dict(WITNESSES["F-coo-nd-zero-cols-hang"], kind="product", _fresh=True, _deadline=HANG_DEADLINE)])
     active = {}
-    for fid, r in zip(ids, res):
+    for fid, r in zip(ids + ["F-coo-nd-zero-cols-hang"], res[1:] + hang):
         case = dict(WITNESSES[fid])
-        if "ok" in r or "raised" in r:
-            case["_kernels"] = [c["kernel"] for c in (r.get("ok") or r).get("calls", [])]
+        payload = r.get("ok") or (r if "raised" in r else {})
+        case["_kernels"] = [c["kernel"] for c in payload.get("calls", [])]
         msg = judge(case, r, ref_of(case))
         active[fid] = msg is not None
         ctx.notes.setdefault("witness_replay", {})[fid] = msg or "passes (defect not present)"
@@ -889,9 +896,9 @@ def run(ctx):
     lap("spec_and_axes")
     # all calls of the three legs go to the pool together, so that the watchdog deadlines of the
     # non-returning calls overlap with useful work
-    gens = [leg_a_kernels(ctx, rng, pool, active, 14 if ctx.quick else 160, exhaustive=not ctx.quick),
+    gens = [leg_a_kernels(ctx, rng, pool, active, 10 if ctx.quick else 160, exhaustive=not ctx.quick),
             leg_a_dispatch(ctx, rng, pool, active, 1 if ctx.quick else 4),
-            leg_c(ctx, rng, pool, active, 480 if ctx.quick else 8000)]
+            leg_c(ctx, rng, pool, active, 400 if ctx.quick else 8000)]
     if not ctx.quick:
         ctx.cov["exhaustive_box"] = "every kernel (jitted) on all 2x2 by 2x1 integer matrices over {-1,0,1}: 729 operand pairs each"
     parts = [next(g) for g in gens]
